@@ -23,6 +23,7 @@ func init() {
 var phiName = regexp.MustCompile(`φ[A-Za-z_0-9]+(⟨[^⟩]*⟩)?`)
 
 func runC18(c *Ctx) {
+	defer c.shared("R7", "C17/R2", "%f is replaced by the rendering of the number: String() and the renderer produce FormatFloat(x, 'f', -1, 64) and nothing else (no integer fast path)", ruleIs("R2"), runC17)
 	defer c.shared("R6", "C08/R4", "each directive shows the value its argument had when it was evaluated: call arguments (printf's included) are evaluated into cells of their own, so a later argument's side effect cannot change an earlier one", keyHas("call-arguments-copied"), c08R4)
 	p := c.P
 	pf := p.LangFunc("nativePrintf")
@@ -193,6 +194,30 @@ func runC18(c *Ctx) {
 		}
 	})
 	c.check(okIdx, "R2", "argument-index", p.Pos(pf.Pos()), "argIndex = 1, +1 per consumed argument", "the argument index is not `starts at 1, incremented by one`")
+	// only %s, %f and %v consume an argument: every increment sits where the directive byte is known to be one of them
+	nInc := 0
+	allInstrs(pf, func(in ssa.Instruction) {
+		bo, ok := in.(*ssa.BinOp)
+		if !ok || bo.Op != token.ADD {
+			return
+		}
+		phi, isPhi := bo.X.(*ssa.Phi)
+		if one, isOne := constInt(bo.Y); !isPhi || !isOne || one != 1 || !loopCarried(phi) || loopVarName(phi) != "int1" {
+			return
+		}
+		nInc++
+		which := ""
+		for _, rl := range FactsOf(pf).At(bo.Block()).Rels() {
+			if k, isC := constInt(rl.y); isC && rl.op == relEQ && norm(p.Render(rl.x)) == fmtByte {
+				switch k {
+				case 's', 'f', 'v':
+					which = string(rune(k))
+				}
+			}
+		}
+		c.check(which != "", "R2", fmt.Sprintf("argument-consumed #%d", nInc), p.InstrPos(bo), "the argument index moves on under directive %"+which, "the argument index is incremented where the directive is not known to be %s, %f or %v: %% (or a failed directive) uses up an argument, so every later directive shows the wrong one")
+	})
+	c.check(nInc == 3, "R2", "argument-consumers", p.Pos(pf.Pos()), "three increments: %s, %f, %v", fmt.Sprintf("%d increments of the argument index found, 3 expected (one per consuming directive)", nInc))
 	c.floor("R2", 12)
 
 	// R3 padding-guards
